@@ -12,20 +12,6 @@ theorem conflict_false_of_all {f : SDir} {F : List Cls} {toks : List Tok}
   have := List.all_eq_true.mp h _ hm
   simpa using this
 
-/-- only attribute variables can fail `okShape`; as a present anchor they print their value -/
-theorem anchor_prints_of_badShape (D : Defs) (op : OpInst) (a : SDir) (hs : okShape a = false)
-    (hp : presentS op a = true) : printS D op a ≠ [] := by
-  cases a with
-  | attr name isProp optional optParse dflt =>
-    simp only [presentS, printS] at hp ⊢
-    cases hg : dictGet isProp op name with
-    | none => simp [hg] at hp
-    | some v =>
-      simp only [hg] at hp
-      have : (dflt == some v) = false := by simpa using hp
-      simp [this]
-  | _ => simp [okShape] at hs
-
 theorem parseDir_printDir (D : Defs) (op : OpInst) (d : Dir) (ds : List Dir) (K : List Cls)
     (tail : List Tok) (st : PState)
     (hwf : wfD (d :: ds) K = true) (hfrag : fragD (d :: ds) = true) (hv : ValidD op (d :: ds))
@@ -35,15 +21,15 @@ theorem parseDir_printDir (D : Defs) (op : OpInst) (d : Dir) (ds : List Dir) (K 
   | s d =>
     simp only [wfD, Bool.and_eq_true] at hwf
     simp only [fragD, Bool.and_eq_true] at hfrag
-    obtain ⟨⟨⟨_, hshape⟩, hfol⟩, _⟩ := hwf
-    obtain ⟨b, hb⟩ := parseS_printS D op d tail st hfrag.1 (Or.inl hshape) hv.1.1
+    obtain ⟨⟨_, hfol⟩, _⟩ := hwf
+    obtain ⟨b, hb⟩ := parseS_printS D op d tail st hfrag.1 hv.1.1
       (followOK_of_okFollow hfol htail)
     simp [parseDir, printDir, replayDir, hb]
   | group a f r e =>
     simp only [wfD, Bool.and_eq_true] at hwf
     simp only [fragD, Bool.and_eq_true] at hfrag
     obtain ⟨⟨⟨hf1, hf2⟩, hf3⟩, _⟩ := hfrag
-    obtain ⟨⟨⟨⟨⟨⟨⟨⟨⟨⟨hfirst, hanchor⟩, hlit⟩, hmem⟩, hing⟩, hinge⟩, hunt⟩, hshf⟩, hwfT⟩, hwfE⟩, _⟩ := hwf
+    obtain ⟨⟨⟨⟨⟨⟨⟨⟨⟨hfirst, hanchor⟩, hlit⟩, hmem⟩, hing⟩, hinge⟩, hunt⟩, hwfT⟩, hwfE⟩, _⟩ := hwf
     obtain ⟨hv1, hv2, hcons, _⟩ := hv
     have hfragT : ∀ x ∈ f :: r, inFragment x = true := fun x hx => by
       rcases List.mem_cons.mp hx with h | h
@@ -53,7 +39,7 @@ theorem parseDir_printDir (D : Defs) (op : OpInst) (d : Dir) (ds : List Dir) (K 
     · -- the group is taken
       simp only [GroupCons, hp, if_true] at hcons
       simp only [wfSeq, Bool.and_eq_true] at hwfT
-      obtain ⟨⟨_, hfolF⟩, hwfR⟩ := hwfT
+      obtain ⟨hfolF, hwfR⟩ := hwfT
       have hfr : ∀ x ∈ r, inFragment x = true := fun x hx => hfragT x (List.mem_cons_of_mem _ hx)
       have hir : ∀ x ∈ r, okInst op x := fun x hx => (hv1 x (List.mem_cons_of_mem _ hx)).1
       have hfirstR := clsHd_printSeq D op r (firstD ds K) tail hfr hir htail
@@ -64,14 +50,9 @@ theorem parseDir_printDir (D : Defs) (op : OpInst) (d : Dir) (ds : List Dir) (K 
         · have : a = f := by simpa using h
           subst this
           exact present_print D op a hfirst (hv1 a (List.mem_cons_self ..)) hp
-      have h1 := parseOptS_present D op f (printSeq D op r ++ tail) st hf1 hfirst hshf
+      have h1 := parseOptS_present D op f (printSeq D op r ++ tail) st hf1 hfirst
         (hv1 f (List.mem_cons_self ..)).1 (followOK_of_okFollow hfolF hfirstR) hnef
-      have h2 := parseSeq_printSeq D op (some a) r (firstD ds K) tail (replayS D op f st) hwfR hfr hir
-        (fun x hx hax hsx => by
-          have hax' : a = x := by simpa using hax
-          subst hax'
-          exact anchor_prints_of_badShape D op a hsx hp)
-        htail
+      have h2 := parseSeq_printSeq D op r (firstD ds K) tail (replayS D op f st) hwfR hfr hir htail
       simp [parseDir, printDir, replayDir, hp, printSeq, List.append_assoc, h1, h2, replaySeq]
     · -- the group is not taken: the else branch was printed
       have hp' : presentS op a = false := by simpa using hp
@@ -79,10 +60,10 @@ theorem parseDir_printDir (D : Defs) (op : OpInst) (d : Dir) (ds : List Dir) (K 
       have hfe : ∀ x ∈ e, inFragment x = true := fun x hx => mem_all hf3 hx
       have hie : ∀ x ∈ e, okInst op x := fun x hx => (hv2 x hx).1
       have hfirstE := clsHd_printSeq D op e (firstD ds K) tail hfe hie htail
-      have h1 := parseOptS_absent D op f (printSeq D op e ++ tail) st hfirst hshf
+      have h1 := parseOptS_absent D op f (printSeq D op e ++ tail) st hfirst
         (hcons f (List.mem_cons_self ..)) (conflict_false_of_all hunt hfirstE)
-      have h2 := parseSeq_printSeq D op none e (firstD ds K) tail (setEmptySeq (replayS D op f st) r) hwfE hfe hie
-        (fun x _ h => by simp at h) htail
+      have h2 := parseSeq_printSeq D op e (firstD ds K) tail (setEmptySeq (replayS D op f st) r) hwfE hfe hie
+        htail
       simp [parseDir, printDir, replayDir, hp', h1, h2]
 
 theorem wfD_tail {d : Dir} {ds : List Dir} {K : List Cls} (h : wfD (d :: ds) K = true) : wfD ds K = true := by
